@@ -110,6 +110,82 @@ fn probe(path: &str, values: &[String]) {
     println!("{n}");
 }
 
+
+/// Repeated calls (other call orders): how often a later result differed from the first one.
+/// Comparing two outputs of the code is not an oracle; TLC judges (`again`/`diff` events).
+struct Again {
+    order: &'static str,
+    calls: u64,
+    differing: u64,
+    first: Option<u32>,
+    diffs: Vec<String>, // at most MAX_DIFFS `diff` events, as JSON text
+}
+const MAX_DIFFS: usize = 200;
+
+impl Again {
+    fn new(order: &'static str) -> Again {
+        Again { order, calls: 0, differing: 0, first: None, diffs: Vec::new() }
+    }
+    /// `first` / `again`: JSON text of the two results for value `v`; `before`: the value looked
+    /// up immediately before in this order (the state a history-dependent lookup would carry).
+    fn note(&mut self, v: u32, before: u32, same: bool, first: &dyn Fn() -> String, again: &dyn Fn() -> String) {
+        self.calls += 1;
+        if same {
+            return;
+        }
+        self.differing += 1;
+        if self.first.is_none() {
+            self.first = Some(v);
+        }
+        if self.diffs.len() < MAX_DIFFS {
+            self.diffs.push(format!(
+                "{{\"e\":\"diff\",\"order\":\"{}\",\"hi16\":{},\"lo16\":{},\"before_hi16\":{},\"before_lo16\":{},\"first\":{},\"again\":{}}}",
+                self.order, v >> 16, v & 0xFFFF, before >> 16, before & 0xFFFF, first(), again()));
+        }
+    }
+    fn summary(&self) -> String {
+        let f = match self.first {
+            Some(v) => format!("[{},{}]", v >> 16, v & 0xFFFF),
+            None => "[]".to_string(),
+        };
+        format!("{{\"e\":\"again\",\"order\":\"{}\",\"calls_hi\":{},\"calls_lo\":{},\"differing\":{},\"first_differing\":{}}}",
+                self.order, self.calls >> 16, self.calls & 0xFFFF, self.differing.min(0x7FFF_FFFF), f)
+    }
+}
+
+fn res_json(k: u8, s: &str) -> String {
+    format!("{{\"out\":\"{}\",\"reg\":{}}}", out_name(k), chars(s))
+}
+
+/// The results of the first (ascending) calls.
+struct First {
+    kind: Vec<u8>,
+    regs: Vec<(u32, String)>,                              // ascending by address
+    oor: std::collections::HashMap<u32, (u8, String)>,
+}
+impl First {
+    fn get(&self, v: u32) -> (u8, &str) {
+        if v < DOMAIN {
+            let k = self.kind[v as usize];
+            if k == 1 {
+                let i = self.regs.binary_search_by_key(&v, |p| p.0).expect("recorded");
+                (1, self.regs[i].1.as_str())
+            } else {
+                (k, "")
+            }
+        } else {
+            let (k, s) = self.oor.get(&v).expect("recorded");
+            (*k, s.as_str())
+        }
+    }
+    /// Look `v` up again and compare with the first result.
+    fn again(&self, a: &mut Again, v: u32, before: u32) {
+        let (k2, s2) = lookup(v);
+        let (k1, s1) = self.get(v);
+        a.note(v, before, k1 == k2 && s1 == s2, &|| res_json(k1, s1), &|| res_json(k2, &s2));
+    }
+}
+
 fn open(dir: &str, name: &str) -> BufWriter<File> {
     BufWriter::with_capacity(1 << 20, File::create(format!("{dir}/{name}")).expect("create"))
 }
@@ -132,24 +208,9 @@ fn main() {
     let n_b: usize = args[6].parse().unwrap();
     let points = read_lines(&args[7]);
 
-    // ---- the whole domain
-    let t0 = std::time::Instant::now();
-    let mut kind = vec![0u8; DOMAIN as usize];
-    let mut regs: Vec<(u32, String)> = Vec::with_capacity(1 << 21);
-    let mut panics: Vec<u32> = Vec::new();
-    for h in 0..DOMAIN {
-        let (k, s) = lookup(h);
-        kind[h as usize] = k;
-        if k == 1 {
-            regs.push((h, s));
-        } else if k == 2 {
-            panics.push(h);
-        }
-    }
-    let sweep_s = t0.elapsed().as_secs_f64();
-
-    // ---- sample: intervals chosen by TLC (Gen_Registration), every 64th address, seeded
-    // random addresses, and every address at which the code panicked
+    // ---- the values: sample (intervals chosen by TLC in Gen_Registration, every 64th address,
+    // seeded random addresses) and out-of-range 32-bit values (aliases of the interval
+    // mid-points through the upper byte, extremes, seeded random)
     let mut sample: Vec<u32> = Vec::new();
     let mut n_interval_pts = 0usize;
     for p in &points {
@@ -169,33 +230,6 @@ fn main() {
     for _ in 0..n_random {
         sample.push(rng.below(DOMAIN as u64) as u32);
     }
-    sample.extend(panics.iter().copied());
-    sample.sort_unstable();
-    sample.dedup();
-
-    let t1 = std::time::Instant::now();
-    let per = sample.len().div_ceil(n_a.max(1)).max(1);
-    let mut n_a_events = 0usize;
-    let mut n_a_some = 0usize;
-    let mut a_files = Vec::new();
-    let mut last_w: Option<BufWriter<File>> = None;
-    for (k, part) in sample.chunks(per).enumerate() {
-        let name = format!("a.{k}.ndjson");
-        let mut w = open(&dir, &name);
-        for &h in part {
-            let (kd, s) = lookup(h);
-            writeln!(w, "{{\"e\":\"t\",\"h\":{},\"out\":\"{}\",\"reg\":{},\"ai\":{}}}",
-                     h, out_name(kd), chars(&s), ai_field(h)).unwrap();
-            n_a_events += 1;
-            n_a_some += (kd == 1) as usize;
-        }
-        a_files.push(json!({"file": name, "events": part.len()}));
-        if let Some(mut p) = last_w.replace(w) {
-            p.flush().unwrap();
-        }
-    }
-    // ---- out-of-range 32-bit values (totality only), appended to the last sample shard:
-    // aliases of the sampled interval points through the upper byte, extremes, seeded random
     let mut oor: Vec<u32> = vec![DOMAIN, DOMAIN + 1, 0x7FFF_FFFF, 0x8000_0000, 0x8000_0001, 0xFFFF_FFFF, 0xFFFF_FFFE];
     for p in &points {
         if p["e"] == "interval" {
@@ -215,18 +249,134 @@ fn main() {
     }
     oor.sort_unstable();
     oor.dedup();
+
+    // ---- first calls: the whole domain in ascending order, then the out-of-range values
+    let t0 = std::time::Instant::now();
+    let mut kind = vec![0u8; DOMAIN as usize];
+    let mut regs: Vec<(u32, String)> = Vec::with_capacity(1 << 21);
+    let mut panics: Vec<u32> = Vec::new();
+    for h in 0..DOMAIN {
+        let (k, s) = lookup(h);
+        kind[h as usize] = k;
+        if k == 1 {
+            regs.push((h, s));
+        } else if k == 2 {
+            panics.push(h);
+        }
+    }
+    let mut oor_first = std::collections::HashMap::new();
+    for &v in &oor {
+        oor_first.insert(v, lookup(v));
+    }
+    let sweep_s = t0.elapsed().as_secs_f64();
+    let first = First { kind, regs, oor: oor_first };
+    let (kind, regs) = (&first.kind, &first.regs);
+
+    // ---- the same calls in other orders: descending, and stride-permuted (h * K mod 2^24, K odd:
+    // neighbours in the call sequence are far apart) with the out-of-range values interleaved
+    let t2 = std::time::Instant::now();
+    let mut agains: Vec<Again> = Vec::new();
+    {
+        let mut a = Again::new("descending");
+        let mut before = 0u32;
+        for &v in oor.iter().rev() {
+            first.again(&mut a, v, before);
+            before = v;
+        }
+        for h in (0..DOMAIN).rev() {
+            first.again(&mut a, h, before);
+            before = h;
+        }
+        agains.push(a);
+        let mut a = Again::new("permuted");
+        const K: u32 = 0x9E3779; // odd
+        let gap = (DOMAIN as usize / oor.len().max(1)).max(1);
+        let mut j = 0usize;
+        for i in 0..DOMAIN {
+            let h = i.wrapping_mul(K) & (DOMAIN - 1);
+            first.again(&mut a, h, before);
+            before = h;
+            if i as usize % gap == gap - 1 && j < oor.len() {
+                let v = oor[(j * 7919) % oor.len()];
+                first.again(&mut a, v, before);
+                before = v;
+                j += 1;
+            }
+        }
+        agains.push(a);
+    }
+    let again_s = t2.elapsed().as_secs_f64();
+
+    // every address at which the code panicked joins the sample
+    sample.extend(panics.iter().copied());
+    sample.sort_unstable();
+    sample.dedup();
+
+    // ---- sample pass, ascending: tail() once more and aircraft_information
+    let t1 = std::time::Instant::now();
+    let per = sample.len().div_ceil(n_a.max(1)).max(1);
+    let mut n_a_events = 0usize;
+    let mut n_a_some = 0usize;
+    let mut a_files = Vec::new();
+    let mut last_w: Option<BufWriter<File>> = None;
+    let mut ai_first: Vec<String> = Vec::with_capacity(sample.len());
+    let mut a_sample = Again::new("sample_ascending");
+    let mut before = 0u32;
+    for (k, part) in sample.chunks(per).enumerate() {
+        let name = format!("a.{k}.ndjson");
+        let mut w = open(&dir, &name);
+        for &h in part {
+            let (kd, s) = lookup(h);
+            let (k1, s1) = first.get(h);
+            a_sample.note(h, before, k1 == kd && s1 == s, &|| res_json(k1, s1), &|| res_json(kd, &s));
+            before = h;
+            let ai = ai_field(h);
+            writeln!(w, "{{\"e\":\"t\",\"h\":{},\"out\":\"{}\",\"reg\":{},\"ai\":{}}}",
+                     h, out_name(kd), chars(&s), ai).unwrap();
+            ai_first.push(ai);
+            n_a_events += 1;
+            n_a_some += (kd == 1) as usize;
+        }
+        a_files.push(json!({"file": name, "events": part.len()}));
+        if let Some(mut p) = last_w.replace(w) {
+            p.flush().unwrap();
+        }
+    }
+    agains.push(a_sample);
+    // ---- sample pass, descending: aircraft_information again
+    {
+        let mut a = Again::new("ai_descending");
+        for (i, &h) in sample.iter().enumerate().rev() {
+            let ai = ai_field(h);
+            a.note(h, before, ai == ai_first[i], &|| ai_first[i].clone(), &|| ai.clone());
+            before = h;
+        }
+        agains.push(a);
+    }
+    drop(ai_first);
+    // ---- appended to the last sample shard: the out-of-range values (first calls) and the
+    // comparison of the repeated calls with the first ones
     let mut n_oor = 0usize;
+    let mut n_again_events = 0usize;
     {
         let mut w = last_w.take().expect("at least one sample shard");
         for &v in &oor {
-            let (kd, s) = lookup(v);
+            let (kd, s) = first.get(v);
             writeln!(w, "{{\"e\":\"oor\",\"hi16\":{},\"lo16\":{},\"out\":\"{}\",\"reg\":{}}}",
-                     v >> 16, v & 0xFFFF, out_name(kd), chars(&s)).unwrap();
+                     v >> 16, v & 0xFFFF, out_name(kd), chars(s)).unwrap();
             n_oor += 1;
+        }
+        for a in &agains {
+            writeln!(w, "{}", a.summary()).unwrap();
+            n_again_events += 1;
+            for d in &a.diffs {
+                writeln!(w, "{d}").unwrap();
+                n_again_events += 1;
+            }
         }
         w.flush().unwrap();
         let last = a_files.last_mut().unwrap();
-        last["events"] = json!(last["events"].as_u64().unwrap() + n_oor as u64);
+        last["events"] = json!(last["events"].as_u64().unwrap() + (n_oor + n_again_events) as u64);
     }
     let sample_s = t1.elapsed().as_secs_f64();
 
@@ -321,6 +471,8 @@ fn main() {
     });
     let summary = json!({
         "calls": DOMAIN as u64 + n_oor as u64,
+        "again": agains.iter().map(|a| json!({"order": a.order, "calls": a.calls, "differing": a.differing})).collect::<Vec<_>>(),
+        "again_s": again_s,
         "domain_calls": DOMAIN,
         "some": n_some, "none": DOMAIN as usize - n_some - panics.len(), "panics": panics.len(),
         "distinct_registrations": n_distinct,
